@@ -1,5 +1,5 @@
 /-
-The `Func` / `Grouping` / `By` fields of the select hints. The reference engine derives them, per
+The `Func` / `Grouping` / `By` / `Step` / `Range` fields of the select hints. The reference engine derives them, per
 selector, from the path of ancestors (`extractFuncFromPath`, `extractGroupsFromPath` in
 promql/engine.go); this engine hands a hints value down the recursion of `newOperator`
 (execution/execution.go) and rewrites it at calls, aggregations, binary expressions and wrappers.
@@ -14,22 +14,36 @@ structure Hint where
   fn : String
   by_ : Bool
   grouping : List String
+  /-- `SelectHints.Step`: the query's step in ms (`execution.New`), never rewritten below -/
+  step : Int := 0
+  /-- `SelectHints.Range`: the range of the enclosing matrix selector in ms, 0 for a bare selector -/
+  range : Int := 0
 deriving DecidableEq, Repr
 
-def Hint.empty : Hint := ⟨"", false, []⟩
+def Hint.empty : Hint := ⟨"", false, [], 0, 0⟩
+
+/-- `execution.New`: the hints `newOperator` starts from -/
+def Hint.start (step : Int) : Hint := ⟨"", false, [], step, 0⟩
 
 /-- what wrappers do to the hints: the function is kept, the grouping is not -/
 def Hint.noGroup (h : Hint) : Hint := { h with by_ := false, grouping := [] }
 
+/-- a binary expression clears function and grouping (`Step` and `Range` stay) -/
+def Hint.clear (h : Hint) : Hint := { h with fn := "", by_ := false, grouping := [] }
+
+/-- a call or an aggregation overwrites function and grouping (`Step` and `Range` stay) -/
+def Hint.withFn (h : Hint) (fn : String) (by_ : Bool) (g : List String) : Hint :=
+  { h with fn := fn, by_ := by_, grouping := g }
+
 /-- `newOperator`: the hints each selector of the expression is created with, in order. (A range
-vector selector is only planned as the argument of a call, with the call's hints; anywhere else
-plan construction fails.) -/
+vector selector is only planned as the argument of a call, with the call's hints and its own range
+written into the local copy of the hints; anywhere else plan construction fails.) -/
 def engHints (h : Hint) : Expr V → List Hint
   | .vsel _ => [h]
-  | .call fn args => callArgs ⟨fn, false, []⟩ args
-  | .agg op w g e => engHints ⟨op, !w, g⟩ e
-  | .aggP op w g p e => engHints ⟨op, !w, g⟩ e ++ engHints ⟨op, !w, g⟩ p
-  | .bin _ _ _ l r => engHints Hint.empty l ++ engHints Hint.empty r
+  | .call fn args => callArgs (h.withFn fn false []) args
+  | .agg op w g e => engHints (h.withFn op (!w) g) e
+  | .aggP op w g p e => engHints (h.withFn op (!w) g) e ++ engHints (h.withFn op (!w) g) p
+  | .bin _ _ _ l r => engHints h.clear l ++ engHints h.clear r
   | .neg e => engHints h.noGroup e
   | .pos e => engHints h.noGroup e
   | .paren e => engHints h.noGroup e
@@ -39,7 +53,7 @@ def engHints (h : Hint) : Expr V → List Hint
 where
   callArgs (hc : Hint) : List (Expr V) → List Hint
     | [] => []
-    | .msel _ _ :: as => hc :: callArgs hc as
+    | .msel _ r :: as => { hc with range := r } :: callArgs hc as
     | a :: as => engHints hc a ++ callArgs hc as
 
 /-- `extractFuncFromPath` (ancestors, nearest first) -/
@@ -57,28 +71,45 @@ def refGroup : List (Expr V) → Bool × List String
   | .aggP _ w g _ _ :: _ => (!w, g)
   | _ => (false, [])
 
-/-- the reference engine: per selector, from its path -/
-def refHints (path : List (Expr V)) : Expr V → List Hint
-  | .vsel _ => [⟨refFunc path, (refGroup path).1, (refGroup path).2⟩]
-  | .call fn args => refArgs (.call fn args :: path) args
-  | .agg op w g e => refHints (.agg op w g e :: path) e
-  | .aggP op w g p e => refHints (.aggP op w g p e :: path) e ++ refHints (.aggP op w g p e :: path) p
-  | .bin op b m l r => refHints (.bin op b m l r :: path) l ++ refHints (.bin op b m l r :: path) r
-  | .neg e => refHints (.neg e :: path) e
-  | .pos e => refHints (.pos e :: path) e
-  | .paren e => refHints (.paren e :: path) e
-  | .stepInv e => refHints (.stepInv e :: path) e
-  | .subq e => refHints (.subq e :: path) e
-  | _ => []
+/-- the reference engine (`populateSeries`): `parser.Inspect` visits the nodes in pre-order; each
+vector selector gets `Func`/`By`/`Grouping` from its path, `Step` from the statement's interval
+(there is no subquery on the path of a natively planned selector), and `Range` from the *mutable*
+variable `evalRange`, which a matrix selector sets and the next vector selector visited consumes
+and resets. `ev` is that variable on entry; the second component is its value on exit. -/
+def refHints (step : Int) (path : List (Expr V)) (ev : Int) : Expr V → List Hint × Int
+  | .vsel _ => ([⟨refFunc path, (refGroup path).1, (refGroup path).2, step, ev⟩], 0)
+  | .call fn args => refArgs (.call fn args :: path) ev args
+  | .agg op w g e => refHints step (.agg op w g e :: path) ev e
+  | .aggP op w g p e =>
+    let a := refHints step (.aggP op w g p e :: path) ev e
+    let b := refHints step (.aggP op w g p e :: path) a.2 p
+    (a.1 ++ b.1, b.2)
+  | .bin op b m l r =>
+    let x := refHints step (.bin op b m l r :: path) ev l
+    let y := refHints step (.bin op b m l r :: path) x.2 r
+    (x.1 ++ y.1, y.2)
+  | .neg e => refHints step (.neg e :: path) ev e
+  | .pos e => refHints step (.pos e :: path) ev e
+  | .paren e => refHints step (.paren e :: path) ev e
+  | .stepInv e => refHints step (.stepInv e :: path) ev e
+  | .subq e => refHints step (.subq e :: path) ev e
+  | _ => ([], ev)
 where
-  /-- the vector selector inside a matrix selector has the matrix selector as its parent: no
-  grouping, and the function of the enclosing call -/
-  refArgs (p : List (Expr V)) : List (Expr V) → List Hint
-    | [] => []
-    | .msel s r :: as => ⟨refFunc (Expr.msel s r :: p), (refGroup (Expr.msel s r :: p)).1, (refGroup (Expr.msel s r :: p)).2⟩ :: refArgs p as
-    | a :: as => refHints p a ++ refArgs p as
+  /-- a matrix selector sets `evalRange := r`; its vector selector (visited next, with the matrix
+  selector as its parent: no grouping, the function of the enclosing call) consumes it -/
+  refArgs (p : List (Expr V)) (ev : Int) : List (Expr V) → List Hint × Int
+    | [] => ([], ev)
+    | .msel s r :: as =>
+      let rest := refArgs p 0 as
+      (⟨refFunc (Expr.msel s r :: p), (refGroup (Expr.msel s r :: p)).1, (refGroup (Expr.msel s r :: p)).2, step, r⟩
+        :: rest.1, rest.2)
+    | a :: as =>
+      let x := refHints step p ev a
+      let rest := refArgs p x.2 as
+      (x.1 ++ rest.1, rest.2)
 
 def showHint (h : Hint) : String :=
   h.fn ++ "|" ++ (if h.by_ then "1" else "0") ++ "|" ++ String.intercalate "," h.grouping
+    ++ "|" ++ toString h.step ++ "|" ++ toString h.range
 
 end PromqlVerif
